@@ -14,7 +14,8 @@ RULE = ("NaiveLinear (both inits) / LULinear (both) / QRLinear / SVDLinear (both
         "constructor call that returns yields finite parameters and a finite invertible W. Non-trivial: W is neither identity "
         "nor diagonal. Weights also scaled by 1e-3 .. 1e3 (|det| leaves the float range, log|det| does not); optionally the object first "
         "makes a cached evaluation-mode call, has its cache switched off and returns to training mode before the parameters change. "
-        "Distinct = distinct case JSON.")
+        "Float64 models are built under a float64 default dtype or under the float32 default and converted with .double(); forward/inverse "
+        "results must have the dtype of the inputs. Distinct = distinct case JSON.")
 ASSUMPTIONS = ["numpy.linalg (slogdet, inv, cond) as reference", "tolerances scale with cond(W); cond > 1e8 is inconclusive"]
 EXPLANATION = "generated; the (class, features<=8, householder count) grid is covered many times over"
 
